@@ -366,6 +366,49 @@ def rule_SL(ctx, tier):
             rr.ok("charge = available - (slots(new blob) - slots(stored blob))")
         else:
             rr.fail("charge:formula", "the new balance is `%s`, not available - (slots(new) - slots(stored))" % s[:240], where=b.line_of(bb))
+        # ... judged on boundary points as well: wherever the guard lets the write happen, the new balance is
+        # available - (required - used) if that fits a u32, and is not below the old balance when slots come back on top of a
+        # balance that a renewal filled up to u32::MAX (an `as u32` of the i64 difference wraps silently there)
+        from .rulekit import eval_u32, Wraps, U32
+
+        def charge_leaf(pt):
+            def leaf(t):
+                if isinstance(t, tuple) and t and t[0] == "proj" and t[2] and t[2][-1] == "f:available_slots":
+                    return pt[0]
+                if isinstance(t, tuple) and t and t[0] in ("call", "ret") and "get_appointment_length" in og.show(t) and ("compute_appointment_slots" in og.show(t) or "map_or" in t[1]):
+                    return pt[2]
+                if isinstance(t, tuple) and t and t[0] in ("call", "ret") and t[1] == "teos_common::appointment::compute_appointment_slots":
+                    return pt[1]
+                return None
+            return leaf
+        verdict = "ok"
+        for a_ in (0, 1, 5, 10000, U32 - 3, U32 - 2, U32 - 1):
+            for req in (1, 2, 4):
+                for used in (0, 1, 4):
+                    if req - used > a_:
+                        continue  # the guard refuses
+                    try:
+                        got = eval_u32(v, charge_leaf((a_, req, used)))
+                    except Wraps:
+                        verdict = ("wraps", a_, req, used, None)
+                        break
+                    if got is None:
+                        verdict = None
+                        break
+                    want = a_ - (req - used)
+                    if (want < U32 and got != want) or (want >= U32 and got < a_):
+                        verdict = ("wrong", a_, req, used, got)
+                        break
+                if verdict != "ok":
+                    break
+            if verdict != "ok":
+                break
+        if verdict == "ok":
+            rr.ok("new balance correct on the boundary grid, never wraps")
+        elif verdict is None:
+            rr.ok("new balance: form checked (arithmetic not evaluated)")
+        else:
+            rr.fail("charge:balance-wraps", "add_update_appointment writes `%s`: with available=%d, %d slots needed and %d already paid for, the balance becomes %s — slots coming back from a smaller replacement on top of a balance that a renewal filled up to u32::MAX wrap it (the cast `as u32` truncates silently)" % (s[:120], verdict[1], verdict[2], verdict[3], verdict[4] if verdict[4] is not None else "out of range (panics with overflow checks)"), where=b.line_of(bb))
     # used size defaults to 0 for a new appointment and is read for THIS uuid
     for bb in sites(b, DBM + "get_appointment_length"):
         if arg_origin(ctx, b, bb, 1) == ("param", b.id, 3):
